@@ -64,27 +64,113 @@ and contain no duplicates, however its attachment races with changes being produ
 continuity cannot be provided the stream stops, with an error event or by closing".**
 
 For EVERY schedule whose log reads start inside the retained log (`SchedOk`: the property's
-"every resume point within the retained change log"), as long as the receiver has not been handed
-to `forward_sub_to_sender` (`handed = false`: subscribe/buffer, snapshot or `changes_since`,
-reconcile with its re-reads, pending event, buffer drain, join — including queue overflow, a lagged
-receiver, an uncommitted batch):
+"every resume point within the retained change log"), for the code since cb48448 (`cfg.fixed`),
+through ALL phases — subscribe/buffer, snapshot or `changes_since`, reconcile with its re-reads,
+pending event, buffer drain, join, the hand-over and live forwarding; including queue overflow, a
+lagged receiver, uncommitted batches, events in flight at the hand-over:
 
 * once the first read is done there is a base `b` — the snapshot's id (`anew`; it is the `v` of
   `snapshot_consistent`), `N` (`since N`) or `max_change_id` (`skip`) — and the change ids delivered
-  are exactly `b+1, b+2, …, last` in this order: no gap, no repeat, starting right after `b`;
+  are exactly `b+1, b+2, …` in this order: no gap, no repeat, starting right after `b`;
 * before that no change has been delivered;
 * `error` is followed by `closed` only and `closed` by nothing (the stream ends, it never continues
   past a gap), and a stream that has ended is never written to again (`done_frozen`). -/
-theorem ids_strictly_increasing_from (cfg : Cfg) (e0 : Env) (mode : Mode) (acts : List Act)
+theorem ids_strictly_increasing_from (cfg : Cfg) (hf : cfg.fixed = true) (e0 : Env) (mode : Mode)
+    (acts : List Act) (he : EnvOk e0) (hs : SchedOk cfg (e0, attach e0 mode) acts) :
+    let s := (run cfg (e0, attach e0 mode) acts).2
+    (∀ b, s.base = some b → chg s.out = idsFrom b (b + (chg s.out).length)) ∧
+    (s.base = none → chg s.out = []) ∧
+    TermOk s.out := by
+  intro s
+  have hpt : ((s.base = none ∧ chg s.out = []) ∨ Pre s) ∧ TermOk s.out := by
+    rcases run_inv_full cfg hf acts (e0, attach e0 mode) he (inv_attach e0 mode) (joinQt_attach e0 mode)
+      (qinv_attach e0 mode) hs with h | h
+    · obtain ⟨q1, q2, q3, nh, term, pcs⟩ := h
+      constructor
+      · unfold PcInv at pcs
+        cases hpc : s.pc <;> simp only [s] at hpc <;> rw [hpc] at pcs <;> dsimp only at pcs
+        case start => left; exact ⟨pcs.2, by simp [s, pcs.1, chg]⟩
+        case readEoq v => left; exact ⟨pcs.2.1, by simp [s, pcs.1, chg]⟩
+        case tryRecv => right; exact pcs
+        case loop => right; exact pcs.1
+        case afterLoop => right; exact pcs.1
+        case sendPending => right; exact pcs.1
+        case cancel => right; exact pcs.1
+        case drain => right; exact pcs.1
+        case join => right; exact pcs.1
+        case done => right; exact pcs
+      · by_cases hd : s.pc = .done
+        · simpa [s, hd] using term
+        · have : NoTerm s.out := by simpa [s, hd] using term
+          exact TermOk.of_noTerm this
+    · obtain ⟨_, _, _, term, hpre, _, _⟩ := h
+      refine ⟨Or.inr hpre, ?_⟩
+      by_cases hd : s.pc = .done
+      · simpa [s, hd] using term
+      · have : NoTerm s.out := by simpa [s, hd] using term
+        exact TermOk.of_noTerm this
+  obtain ⟨hpre, hterm⟩ := hpt
+  refine ⟨?_, ?_, hterm⟩
+  · intro b hb
+    rcases hpre with ⟨hn, _⟩ | ⟨b', hb', hle, hc⟩
+    · rw [hn] at hb; cases hb
+    · rw [hb'] at hb; cases hb
+      rw [hc, idsFrom_length]
+      congr 1; omega
+  · intro hn
+    rcases hpre with ⟨_, h⟩ | ⟨b', hb', _, _⟩
+    · exact h
+    · rw [hb'] at hn; cases hn
+
+/-- The base of a resume is its `from`: with `ids_strictly_increasing_from`, the ids delivered after
+`from = N` are exactly `N+1, N+2, …`. -/
+theorem resume_base (cfg : Cfg) (e0 : Env) (n : Nat) (acts : List Act) :
+    let s := (run cfg (e0, attach e0 (.since n)) acts).2
+    s.base = none ∨ s.base = some n := by
+  intro s
+  have key : ∀ (acts : List Act) (st : State), st.2.mode = .since n →
+      (st.2.base = none ∧ st.2.pc = .start ∨ st.2.base = some n ∧ Post st.2.pc) →
+      ((run cfg st acts).2.base = none ∨ (run cfg st acts).2.base = some n) := by
+    intro acts
+    induction acts with
+    | nil => intro st _ h; rcases h with h | h; exact Or.inl h.1; exact Or.inr h.1
+    | cons a as ih =>
+      intro st hmode h
+      simp only [run]
+      obtain ⟨e, s⟩ := st
+      obtain ⟨mode, pc, cur, qHead, qTail, qt, cancelled, last, minId, pending, target, base, handed, out⟩ := s
+      dsimp only at hmode h
+      subst hmode
+      apply ih
+      · cases a <;> simp only [step]
+        case main => cases pc <;> simp only [stepMain] <;> (repeat' split) <;> rfl
+        case qrecv => simp only [stepQRecv]; (repeat' split) <;> rfl
+        case qcancel => simp only [stepQCancel]; (repeat' split) <;> rfl
+      · cases a <;> simp only [step]
+        case main =>
+          rcases h with ⟨hb, hp⟩ | ⟨hb, hp⟩
+          · subst hb hp
+            simp [stepMain, Post]
+          · subst hb
+            right
+            obtain ⟨hp1, hp2⟩ := hp
+            cases pc <;> simp only [stepMain] <;> (repeat' split) <;>
+              first | exact absurd rfl hp1 | exact absurd rfl (hp2 _) | simp [Post]
+        case qrecv => simp only [stepQRecv]; (repeat' split) <;> exact h
+        case qcancel => simp only [stepQCancel]; (repeat' split) <;> exact h
+        all_goals exact h
+  exact key acts _ (by simp [attach]) (Or.inl ⟨rfl, rfl⟩)
+
+/-- The same statement for the phases BEFORE the hand-over holds for the code before cb48448 as well
+(any `cfg`): what `handover_duplicate_before_fix` shows is a defect of the hand-over only. -/
+theorem ids_strictly_increasing_before_handover (cfg : Cfg) (e0 : Env) (mode : Mode) (acts : List Act)
     (he : EnvOk e0) (hs : SchedOk cfg (e0, attach e0 mode) acts) :
     let s := (run cfg (e0, attach e0 mode) acts).2
     s.handed = false →
       (∀ b, s.base = some b → chg s.out = idsFrom b (b + (chg s.out).length)) ∧
-      (s.base = none → chg s.out = []) ∧
-      (∀ n, mode = .since n → s.base = none ∨ s.base = some n) ∧
-      TermOk s.out := by
+      (s.base = none → chg s.out = []) ∧ TermOk s.out := by
   intro s hh
-  obtain ⟨_, hinv⟩ := run_inv cfg acts (e0, attach e0 mode) he (inv_attach e0 mode) (joinQt_attach e0 mode) hs
+  have hinv := run_inv cfg acts (e0, attach e0 mode) he (inv_attach e0 mode) (joinQt_attach e0 mode) hs
   have hinv' : Inv (run cfg (e0, attach e0 mode) acts).1 s := by
     rcases hinv with h | h
     · exact h
@@ -95,7 +181,6 @@ theorem ids_strictly_increasing_from (cfg : Cfg) (e0 : Env) (mode : Mode) (acts 
     · simpa [s, hd] using term
     · have : NoTerm s.out := by simpa [s, hd] using term
       exact TermOk.of_noTerm this
-  -- the per-program-point invariant gives `Pre` after the first read
   have hpre : (s.base = none ∧ chg s.out = []) ∨ Pre s := by
     unfold PcInv at pcs
     cases hpc : s.pc <;> simp only [s] at hpc <;> rw [hpc] at pcs <;> dsimp only at pcs
@@ -109,42 +194,7 @@ theorem ids_strictly_increasing_from (cfg : Cfg) (e0 : Env) (mode : Mode) (acts 
     case drain => right; exact pcs.1
     case join => right; exact pcs.1
     case done => right; exact pcs
-  -- the base of a resume is its `from`
-  have hbase : ∀ n, mode = .since n → s.base = none ∨ s.base = some n := by
-    intro n hm
-    have key : ∀ (acts : List Act) (st : State), st.2.mode = .since n →
-        (st.2.base = none ∧ st.2.pc = .start ∨ st.2.base = some n ∧ Post st.2.pc) →
-        ((run cfg st acts).2.base = none ∨ (run cfg st acts).2.base = some n) := by
-      intro acts
-      induction acts with
-      | nil => intro st _ h; rcases h with h | h; exact Or.inl h.1; exact Or.inr h.1
-      | cons a as ih =>
-        intro st hmode h
-        simp only [run]
-        obtain ⟨e, s⟩ := st
-        obtain ⟨mode, pc, cur, qHead, qTail, qt, cancelled, last, minId, pending, target, base, handed, out⟩ := s
-        dsimp only at hmode h
-        subst hmode
-        apply ih
-        · cases a <;> simp only [step]
-          case main => cases pc <;> simp only [stepMain] <;> (repeat' split) <;> rfl
-          case qrecv => simp only [stepQRecv]; (repeat' split) <;> rfl
-          case qcancel => simp only [stepQCancel]; (repeat' split) <;> rfl
-        · cases a <;> simp only [step]
-          case main =>
-            rcases h with ⟨hb, hp⟩ | ⟨hb, hp⟩
-            · subst hb hp
-              simp [stepMain, Post]
-            · subst hb
-              right
-              obtain ⟨hp1, hp2⟩ := hp
-              cases pc <;> simp only [stepMain] <;> (repeat' split) <;>
-                first | exact absurd rfl hp1 | exact absurd rfl (hp2 _) | simp [Post]
-          case qrecv => simp only [stepQRecv]; (repeat' split) <;> exact h
-          case qcancel => simp only [stepQCancel]; (repeat' split) <;> exact h
-          all_goals exact h
-    exact key acts _ (by simp [attach, hm]) (Or.inl ⟨rfl, rfl⟩)
-  refine ⟨?_, ?_, hbase, hterm⟩
+  refine ⟨?_, ?_, hterm⟩
   · intro b hb
     rcases hpre with ⟨hn, _⟩ | ⟨b', hb', hle, hc⟩
     · rw [hn] at hb; cases hb
@@ -177,67 +227,48 @@ theorem done_frozen (cfg : Cfg) (acts : List Act) (e : Env) (s : Sub) (h : s.pc 
       (repeat' split) <;> exact ih e _ rfl
     all_goals exact ih _ _ rfl
 
-/-- The full statement, INCLUDING the hand-over and live forwarding,
-```
-theorem ids_strictly_increasing_full … (hs : SchedOk …) :
-    ∀ b, s.base = some b → chg s.out = idsFrom b (b + (chg s.out).length)
-```
-is FALSE for the code as it stands (`handover_duplicate_counterexample`,
-`lag_swallowed_gap_counterexample`): `forward_sub_to_sender` forwards whatever its receiver yields,
-unfiltered.  Proved instead: the same conclusion for every schedule in which, at the hand-over,
-nothing that was already delivered is still in flight (`SchedClean`: the receiver's next id is
-`last + 1` when the main task joins the buffering task).  What is missing for full strength is a
-filter `change_id > last` after the hand-over (and treating `Lagged` in the buffering task as an
-error). -/
-theorem ids_strictly_increasing_partial (cfg : Cfg) (e0 : Env) (mode : Mode) (acts : List Act)
-    (he : EnvOk e0) (hs : SchedClean cfg (e0, attach e0 mode) acts) :
-    let s := (run cfg (e0, attach e0 mode) acts).2
-    s.handed = true →
-      (∃ b, s.base = some b ∧ chg s.out = idsFrom b (b + (chg s.out).length)) ∧ TermOk s.out := by
-  intro s hh
-  rcases run_inv_clean cfg acts (e0, attach e0 mode) he (inv_attach e0 mode) (joinQt_attach e0 mode) hs with h | h
-  · rw [h.nh] at hh; cases hh
-  · obtain ⟨_, _, _, term, ⟨b, hb, hle, hc⟩, _⟩ := h
-    refine ⟨⟨b, hb, ?_⟩, ?_⟩
-    · rw [hc, idsFrom_length]; congr 1; omega
-    · by_cases hd : s.pc = .done
-      · simpa [s, hd] using term
-      · have : NoTerm s.out := by simpa [s, hd] using term
-        exact TermOk.of_noTerm this
-
-/-- the schedule of `handover_duplicate_counterexample`: one change sent and committed but still in
-the pipe; resume from 0 reads it from the log, reconciles (queue empty, `last_change_id_sent = 1 ≤
-last`), cancels the buffering task, hands over; then the pipe delivers change 1 and
-`forward_sub_to_sender` forwards it again. -/
+/-- the F9 schedule: one change sent and committed but still in the pipe; resume from 0 reads it
+from the log, reconciles (queue empty, `last_change_id_sent = 1 ≤ last`), cancels the buffering
+task, hands over; then the pipe delivers change 1. -/
 def f9Schedule : List Act :=
   [.emit, .commit, .main, .main, .main, .main, .qcancel, .main, .main, .publish, .main]
 
-/-- **F9 (DESIGN §6), confirmed on the real code** (corpus/C12/f9_handover_duplicate.ops): a
-schedule inside the property's quantifier on which the code delivers change 1 twice. -/
-theorem handover_duplicate_counterexample :
-    SchedOk {} ({}, attach {} (.since 0)) f9Schedule ∧
-    (run {} ({}, attach {} (.since 0)) f9Schedule).2.out = [.change 1, .change 1] ∧
-    (run {} ({}, attach {} (.since 0)) f9Schedule).2.pc = .live := by
-  refine ⟨?_, by decide, by decide⟩
+/-- **F9 (DESIGN §6), confirmed on the real code before cb48448** (corpus/C12/f9_handover_duplicate.ops):
+a schedule inside the property's quantifier on which the code before the fix delivered change 1
+twice (regression witness: `fixed := false`). -/
+theorem handover_duplicate_before_fix :
+    SchedOk { fixed := false } ({}, attach {} (.since 0)) f9Schedule ∧
+    (run { fixed := false } ({}, attach {} (.since 0)) f9Schedule).2.out = [.change 1, .change 1] := by
+  refine ⟨?_, by decide⟩
   simp [SchedOk, f9Schedule, step, stepEnv, stepMain, stepQCancel, ReadOk, attach, logRead, idsFrom]
 
+/-- … and the code since cb48448 delivers it once on the same schedule. -/
+theorem handover_duplicate_fixed :
+    (run {} ({}, attach {} (.since 0)) f9Schedule).2.out = [.change 1] ∧
+    (run {} ({}, attach {} (.since 0)) f9Schedule).2.pc = .live := by
+  exact ⟨by decide, by decide⟩
+
 /-- broadcast capacity 2; after the reconcile found nothing to wait for, a burst of three changes
-is published before the buffering task runs: its `recv` returns `Lagged`, the task waits for the
-cancellation and returns the receiver positioned at the oldest retained change. -/
+is published before the buffering task runs: its `recv` returns `Lagged`. -/
 def lagSchedule : List Act :=
   [.emit, .commit, .main, .main, .emit, .emit, .emit, .commit, .publish, .publish, .publish, .publish,
    .qrecv, .main, .main, .qcancel, .main, .main, .main, .main]
 
-/-- A lag swallowed by the buffering task: the code delivers 1, 3, 4 — change 2 is skipped and
-the stream continues.  (With the real capacities this needs more than 16384 changes between two
-polls of the buffering task; reproduced on the real code with a small channel only in its
-duplicate form, see the corpus.) -/
-theorem lag_swallowed_gap_counterexample :
-    SchedOk { bcap := 2 } ({}, attach {} (.since 0)) lagSchedule ∧
-    (run { bcap := 2 } ({}, attach {} (.since 0)) lagSchedule).2.out = [.change 1, .change 3, .change 4] := by
+/-- Before cb48448 the lag was swallowed by the buffering task (it waited for the cancellation and
+returned the receiver positioned at the oldest retained change): 1, 3, 4 were delivered — change 2
+skipped, stream continued (regression witness). -/
+theorem lag_swallowed_gap_before_fix :
+    SchedOk { bcap := 2, fixed := false } ({}, attach {} (.since 0)) lagSchedule ∧
+    (run { bcap := 2, fixed := false } ({}, attach {} (.since 0)) lagSchedule).2.out
+      = [.change 1, .change 3, .change 4] := by
   refine ⟨?_, by decide⟩
   simp [SchedOk, lagSchedule, step, stepEnv, stepMain, stepQCancel, stepQRecv, ReadOk, attach, logRead,
     idsFrom, lagging]
+
+/-- … since cb48448 the same schedule ends the stream with the error event. -/
+theorem lag_swallowed_gap_fixed :
+    (run { bcap := 2 } ({}, attach {} (.since 0)) lagSchedule).2.out = [.change 1, .error, .closed] := by
+  decide
 
 /-- **F14 (observation; outside the property's quantifier).**  A resume point older than the
 retained log: `changes_since` simply starts at the oldest retained id.  The first step of the
@@ -281,13 +312,13 @@ theorem client_detects_first (s k x : Nat) (rest : List Nat) (hx : x ≠ s + k +
 
 /-- a schedule with a race: two changes sent, committed and published right after the snapshot
 read (both buffered; the first buffered id is `last + 1`, so the log is re-read); reads inside the
-log, clean hand-over, then live forwarding of a third change -/
+log, hand-over, then live forwarding of a third change -/
 def demoSchedule : List Act :=
   [.main, .main, .emit, .emit, .commit, .publish, .publish, .qrecv, .qrecv, .main, .main, .main, .main, .main,
    .main, .qcancel, .main, .main, .main, .emit, .commit, .publish, .main]
 
-example : SchedClean {} ({}, attach {} .anew) demoSchedule := by
-  simp [SchedClean, demoSchedule, step, stepEnv, stepMain, stepQCancel, stepQRecv, ReadOk, HandOk, attach,
+example : SchedOk {} ({}, attach {} .anew) demoSchedule := by
+  simp [SchedOk, demoSchedule, step, stepEnv, stepMain, stepQCancel, stepQRecv, ReadOk, attach,
     logRead, idsFrom, lagging]
 
 example : (run {} ({}, attach {} .anew) demoSchedule).2.out
